@@ -8,7 +8,7 @@ CONSTANTS
   MaxAmt = 2
   MaxSends = 4
   Legacy = FALSE
-  FifoGuard = TRUE
+  StrictFifo = TRUE
 INIT Init
 NEXT Next
 INVARIANTS Conservation AtMostOnce FIFO NonNegative OnlyAddressee FifoObserved InboxLive
